@@ -188,8 +188,11 @@ func (n *ResponderInterceptor) resendPackets(nack *rtcp.TransportLayerNack) {
 			stream.rtpBufferMutex.Unlock()
 
 			if p != nil {
-				// send without holding rtpBufferMutex
-				if _, err := stream.rtpWriter.Write(p.Header(), p.Payload(), interceptor.Attributes{}); err != nil {
+				// send without holding rtpBufferMutex. Writers further down the chain may modify the header and
+				// NACKs for the same packet are answered concurrently, so every retransmission gets its own copy
+				// of the buffered header.
+				header := p.Header().Clone()
+				if _, err := stream.rtpWriter.Write(&header, p.Payload(), interceptor.Attributes{}); err != nil {
 					n.log.Warnf("failed resending nacked packet: %+v", err)
 				}
 				p.Release()
